@@ -402,7 +402,12 @@ def roundtrip_failure(pose):
     try:
         pose.write(buf)
     except Exception as e:
-        return "Pose.write raises %s: %s" % (type(e).__name__, str(e)[:120])
+        msg = str(e)
+        # a loud rejection of values the format cannot represent (header dimensions outside 16 bits after focus() on a huge
+        # coordinate range, fps outside float32) is C01's "or a loud failure" clause, not a header/body disagreement
+        if (isinstance(e, ValueError) and "must be between 0 and 65535" in msg) or type(e).__name__ in ("error", "OverflowError"):
+            return None
+        return "Pose.write raises %s: %s" % (type(e).__name__, msg[:120])
     PoseHeaderCache.clear_cache()
     try:
         q = Pose.read(buf.getvalue())
